@@ -6,6 +6,7 @@ package main
 import (
 	"go/token"
 	"go/types"
+	"regexp/syntax"
 	"strconv"
 	"strings"
 
@@ -947,4 +948,529 @@ func extensionKeySplit(c *Ctx, rule string) {
 		c.Check(good, rule, "extension-key:name-is-the-remainder", p.InstrPos(ci), "the key is split into at most three parts", "the extension key is split without the bound of three parts: an extension whose name contains '-' (which Encode writes verbatim) no longer decodes, so a pointer this client wrote is not recognised as a pointer and clean wraps it into a pointer to a pointer")
 	}
 	c.AtLeast(rule, "splits of the extension key", n, 1)
+}
+
+// shellSafeChars: characters that sh passes through unchanged in an unquoted word (no expansion, no operator,
+// no glob). Everything else — $ ` ( ) ; & | < > * ? [ ] { } ~ ! # space quotes backslash — needs quoting.
+const shellSafeChars = "abcdefghijklmnopqrstuvwxyzABCDEFGHIJKLMNOPQRSTUVWXYZ0123456789_@/.-,:=+%"
+
+// isShellWordAllowList: pat is `\A<class>+\z` (or *) with a class made of shell-safe characters only.
+func isShellWordAllowList(pat string) (bool, string) {
+	re, err := syntax.Parse(pat, syntax.Perl)
+	if err != nil {
+		return false, "pattern does not parse"
+	}
+	if re.Op != syntax.OpConcat || len(re.Sub) != 3 || re.Sub[0].Op != syntax.OpBeginText || re.Sub[2].Op != syntax.OpEndText {
+		return false, "pattern is not anchored at both ends of the text"
+	}
+	rep := re.Sub[1]
+	if rep.Op != syntax.OpPlus && rep.Op != syntax.OpStar {
+		return false, "pattern is not a repeated character class"
+	}
+	cc := rep.Sub[0]
+	if cc.Op != syntax.OpCharClass && cc.Op != syntax.OpLiteral {
+		return false, "pattern is not a repeated character class"
+	}
+	if cc.Op == syntax.OpCharClass {
+		for i := 0; i+1 < len(cc.Rune); i += 2 {
+			if cc.Rune[i+1]-cc.Rune[i] > 64 {
+				return false, "character class is too wide"
+			}
+			for r := cc.Rune[i]; r <= cc.Rune[i+1]; r++ {
+				if !strings.ContainsRune(shellSafeChars, r) {
+					return false, "character class admits " + strconv.QuoteRune(r) + ", which sh interprets"
+				}
+			}
+		}
+	}
+	return true, ""
+}
+
+// shellQuoteRule (C11): ShellQuoteSingle is what stands between a repository-supplied URL (lfs.url from
+// .lfsconfig → ssh user@host argument) and `sh -c` when the user configured an ssh command. It returns its
+// argument unquoted only when an allow-list pattern matched the whole string — a deny-list of "characters that
+// need quoting" lets $(...) and back-quotes through.
+func shellQuoteRule(c *Ctx, rule string) {
+	p := c.P
+	fn := p.Fn("subprocess", "ShellQuoteSingle")
+	if fn == nil || len(fn.Params) == 0 {
+		c.Missing(rule, "subprocess.ShellQuoteSingle", "not found")
+		return
+	}
+	str := fn.Params[0]
+	// the allow-list test: a method of a package-level *regexp.Regexp applied to the argument
+	var badPat string
+	pass := PassEdges(fn, func(cond ssa.Value) (bool, bool) {
+		var call *ssa.Call
+		passWhen := true
+		if op, x, y, ok := BinCmp(cond); ok && (op == token.EQL || op == token.NEQ) {
+			// re.FindStringIndex(str) == nil
+			if IsNilConst(y) {
+				call, _ = x.(*ssa.Call)
+			} else if IsNilConst(x) {
+				call, _ = y.(*ssa.Call)
+			}
+			passWhen = op == token.NEQ
+		} else if cc, ok := cond.(*ssa.Call); ok {
+			call = cc
+		}
+		if call == nil {
+			return false, false
+		}
+		name := CalleeName(call.Common())
+		if !nameIn(name, []string{"(*regexp.Regexp).FindStringIndex", "(*regexp.Regexp).MatchString", "(*regexp.Regexp).FindString"}) {
+			return false, false
+		}
+		a := CallArgs(call.Common())
+		if len(a) < 2 || !SameVar(a[1], str) {
+			return false, false
+		}
+		u, ok := a[0].(*ssa.UnOp)
+		if !ok {
+			return false, false
+		}
+		g, ok := u.X.(*ssa.Global)
+		if !ok {
+			return false, false
+		}
+		pats, _, ok := globalInitStrings(p, "subprocess", g.Name())
+		if !ok || len(pats) != 1 {
+			return false, false
+		}
+		if good, why := isShellWordAllowList(pats[0]); !good {
+			badPat = strconv.Quote(pats[0]) + ": " + why
+			return false, false
+		}
+		return passWhen, true
+	})
+	n := 0
+	for _, r := range ReturnsOf(fn) {
+		plain := false
+		for _, v := range ReturnValues(r, 0) {
+			if SameVar(v, str) {
+				plain = true
+			}
+			if ph, ok := v.(*ssa.Phi); ok {
+				for _, e := range ph.Edges {
+					if SameVar(e, str) {
+						plain = true
+					}
+				}
+			}
+		}
+		if !plain {
+			continue
+		}
+		n++
+		ok, where := Guarded(fn.Blocks[0], r, pass, nil)
+		msg := where
+		if badPat != "" {
+			msg += "; pattern " + badPat
+		}
+		c.Check(ok && nonVacuous(pass), rule, "ShellQuoteSingle:unquoted-only-if-allow-listed", p.InstrPos(r), "the argument is returned unquoted only after an anchored allow-list of shell-safe characters matched it",
+			"ShellQuoteSingle can return its argument unquoted without an anchored allow-list match of shell-safe characters ("+msg+"): `$(...)`, back-quotes, `;` or `|` in an ssh user/host taken from a repository's .lfsconfig reach `sh -c` and run a program")
+	}
+	c.AtLeast(rule, "unquoted returns of ShellQuoteSingle", n, 1)
+}
+
+// everyValueRecorded (C11): readGitConfig reads .lfsconfig first and Git's own configuration last, and a lookup
+// answers with the last value recorded for a key — that is how Git's configuration always wins. It only works if
+// every well-formed line that is not rejected as unsafe is recorded, in order: a line may leave the loop body
+// without being recorded only after its key was added to the `ignored` list. (Dropping "duplicate" values makes
+// a value the user set in Git's configuration lose against a later .lfsconfig line.)
+func everyValueRecorded(c *Ctx, rule string) {
+	p := c.P
+	fn := p.Fn("config", "readGitConfig")
+	if fn == nil {
+		c.Missing(rule, "config.readGitConfig", "not found")
+		return
+	}
+	var mu *ssa.MapUpdate
+	for _, b := range fn.Blocks {
+		for _, in := range b.Instrs {
+			if m, ok := in.(*ssa.MapUpdate); ok && short(m.Map.Type().String()) == "map[string][]string" {
+				mu = m
+			}
+		}
+	}
+	if mu == nil {
+		c.Missing(rule, "readGitConfig: vals[key] = append(...)", "not found")
+		return
+	}
+	l := LoopOf(Loops(fn), mu.Block())
+	if l == nil {
+		c.Missing(rule, "readGitConfig: loop over the lines", "not found")
+		return
+	}
+	// entry: where the line is known to be well formed — the block that reads OnlySafeKeys for this line
+	var entry *ssa.BasicBlock
+	for _, b := range RPO(fn) {
+		if !l.Region[b] || entry != nil {
+			continue
+		}
+		for _, in := range b.Instrs {
+			if v, ok := in.(ssa.Value); ok && IsLoadOfField(v, "git.ConfigurationSource", "OnlySafeKeys") && b.Dominates(mu.Block()) {
+				entry = b
+				break
+			}
+		}
+	}
+	if entry == nil {
+		c.Missing(rule, "readGitConfig: per-line read of OnlySafeKeys", "not found")
+		return
+	}
+	good, where := true, ""
+	for _, ex := range RunCount(CountQuery{Fn: fn, Entry: entry, Region: l.Region, Header: l.Header, NoRet: noReturnCommands, Event: func(in ssa.Instruction) CSet {
+		if in == ssa.Instruction(mu) {
+			return C1
+		}
+		if cc, ok := in.(*ssa.Call); ok {
+			if b, isB := cc.Call.Value.(*ssa.Builtin); isB && b.Name() == "append" && short(cc.Type().String()) == "[]string" {
+				if _, isLookup := cc.Call.Args[0].(*ssa.Lookup); !isLookup {
+					if len(p.LeavesNoFields(cc.Call.Args[0], nil)) >= 0 && derivesFromMakeSlice(cc.Call.Args[0], 0) {
+						return C1
+					}
+				}
+			}
+		}
+		return 0
+	}}) {
+		if ex.Set&C0 != 0 {
+			good, where = false, ex.Desc(p)
+		}
+	}
+	c.Check(good, rule, "readGitConfig:every-accepted-line-is-recorded", p.InstrPos(mu), "a well-formed line is either recorded or listed as ignored",
+		"readGitConfig can skip a well-formed line without recording its value or listing the key as ignored ("+where+"): the last-value-wins order that lets Git's own configuration override .lfsconfig no longer holds")
+}
+
+// derivesFromMakeSlice: v is a slice variable that starts as make([]T, ...) and grows by append (φ-chain).
+func derivesFromMakeSlice(v ssa.Value, d int) bool {
+	if d > 6 {
+		return false
+	}
+	switch x := v.(type) {
+	case *ssa.MakeSlice:
+		return true
+	case *ssa.Slice:
+		_, isAl := x.X.(*ssa.Alloc)
+		return isAl
+	case *ssa.Phi:
+		for _, e := range x.Edges {
+			if derivesFromMakeSlice(e, d+1) {
+				return true
+			}
+		}
+	case *ssa.Call:
+		if b, isB := x.Call.Value.(*ssa.Builtin); isB && b.Name() == "append" {
+			return derivesFromMakeSlice(x.Call.Args[0], d+1)
+		}
+	}
+	return false
+}
+
+// after: instruction b can execute after instruction a on some path of their function.
+func after(a, b ssa.Instruction) bool {
+	if a.Block() == b.Block() && InstrIndex(a) < InstrIndex(b) {
+		return true
+	}
+	seen := map[*ssa.BasicBlock]bool{}
+	var walk func(x *ssa.BasicBlock) bool
+	walk = func(x *ssa.BasicBlock) bool {
+		if seen[x] {
+			return false
+		}
+		seen[x] = true
+		if x == b.Block() {
+			return true
+		}
+		for _, s := range x.Succs {
+			if walk(s) {
+				return true
+			}
+		}
+		return false
+	}
+	for _, s := range a.Block().Succs {
+		if walk(s) {
+			return true
+		}
+	}
+	return false
+}
+
+// c12NestedTag (C12): a tag of a tag is re-created around the *rewritten* inner tag. The inner tag's ref is
+// resolved after the recursive update of that ref — a SHA resolved before it is the original object, and the
+// outer tag would be written unchanged and stay on the un-rewritten history.
+func c12NestedTag(c *Ctx, rule string) {
+	p := c.P
+	fn := p.Fn("git/githistory", "(*refUpdater).updateOneRef")
+	if fn == nil {
+		c.Missing(rule, "(*githistory.refUpdater).updateOneRef", "not found")
+		return
+	}
+	n := 0
+	for _, ut := range CallsIn(fn, "(*git/githistory.refUpdater).updateOneTag") {
+		a := CallArgs(ut.Common())
+		if len(a) < 3 {
+			continue
+		}
+		dc, _, ok := CallResult(a[2])
+		if !ok || CalleeName(dc.Common()) != "encoding/hex.DecodeString" {
+			continue // the tag-of-commit branch takes the object from the rewrite cache
+		}
+		n++
+		tn, f, base, isF := FieldOf(dc.Call.Args[0])
+		var rr *ssa.Call
+		if isF && tn == "git.Ref" && f == "Sha" {
+			rr, _, _ = CallResult(base)
+		}
+		if rr == nil || CalleeName(rr.Common()) != "git.ResolveRef" {
+			c.Bad(rule, "nested-tag:target-is-resolved-ref", p.InstrPos(ut), "the object of a re-created tag of a tag is not the SHA of the inner tag's ref as resolved by git.ResolveRef")
+			continue
+		}
+		stale := false
+		for _, rc := range CallsIn(fn, "(*git/githistory.refUpdater).updateOneRef") {
+			if after(rr, rc) && after(rc, ut) {
+				stale = true
+			}
+		}
+		c.Check(!stale, rule, "nested-tag:inner-ref-resolved-after-its-update", p.InstrPos(rr), "the inner tag's ref is resolved after the recursive update",
+			"the inner tag's ref is resolved before the recursive update that rewrites it: the outer tag is re-created around the original inner tag, hashes to itself, and its ref stays on the un-rewritten history")
+	}
+	c.AtLeast(rule, "tag-of-tag re-creations in updateOneRef", n, 1)
+}
+
+// c12NoRewriteAccumulates (C12): `migrate import --no-rewrite` converts each named path in turn; every
+// rewriteTree call starts from the tree the previous one produced (a loop-carried value), and that final tree is
+// the tree of the commit written. Starting each iteration from HEAD's tree converts only the last path.
+func c12NoRewriteAccumulates(c *Ctx, rule string) {
+	p := c.P
+	fn := p.Fn("commands", "migrateImportCommand")
+	if fn == nil {
+		c.Missing(rule, "commands.migrateImportCommand", "not found")
+		return
+	}
+	n := 0
+	for _, ci := range CallsIn(fn, "commands.rewriteTree") {
+		rt, ok := ci.(*ssa.Call)
+		if !ok {
+			continue
+		}
+		n++
+		arg := rt.Call.Args[2]
+		carried := false
+		var vals []ssa.Value
+		if ph, ok := arg.(*ssa.Phi); ok {
+			vals = ph.Edges
+		} else if defs := ReachingDefs(arg); len(defs) > 0 {
+			vals = defs
+		}
+		for _, v := range vals {
+			if ResultOfCall(v, rt, 0) {
+				carried = true
+			}
+			if ph, ok := v.(*ssa.Phi); ok {
+				for _, e := range ph.Edges {
+					if ResultOfCall(e, rt, 0) {
+						carried = true
+					}
+				}
+			}
+		}
+		c.Check(carried, rule, "no-rewrite:tree-accumulates", p.InstrPos(rt), "each path is rewritten in the tree produced by the previous path",
+			"every path of `migrate import --no-rewrite` is rewritten starting from the same original tree: only the last path named ends up as a pointer in the new commit, the others stay raw blobs although their objects were stored")
+		// the commit's tree is the accumulated tree
+		okTree, seen := false, false
+		for _, b := range fn.Blocks {
+			for _, in := range b.Instrs {
+				st, ok := in.(*ssa.Store)
+				if !ok {
+					continue
+				}
+				fa, ok := st.Addr.(*ssa.FieldAddr)
+				if !ok {
+					continue
+				}
+				if tn, f := fieldAddrName(fa); !strings.HasSuffix(tn, "gitobj.Commit") && !strings.HasSuffix(tn, ".Commit") || f != "TreeID" {
+					continue
+				}
+				if !after(rt, st) {
+					continue
+				}
+				seen = true
+				vs := []ssa.Value{st.Val}
+				if ph, ok := st.Val.(*ssa.Phi); ok {
+					vs = append(vs, ph.Edges...)
+				}
+				if defs := ReachingDefs(st.Val); len(defs) > 0 {
+					vs = append(vs, defs...)
+				}
+				for _, v := range vs {
+					if ResultOfCall(v, rt, 0) || v == arg {
+						okTree = true
+					}
+				}
+			}
+		}
+		c.Check(seen && okTree, rule, "no-rewrite:commit-has-accumulated-tree", p.InstrPos(rt), "the new commit's tree is the accumulated tree", "the commit written by `migrate import --no-rewrite` does not carry the tree produced by the path rewrites")
+	}
+	c.AtLeast(rule, "rewriteTree calls in migrateImportCommand", n, 1)
+}
+
+// indexEntryName (C13, C05): a staged rename or copy is reported by `diff-index -M` with both names; the object
+// the index now requires lives under the destination name, which is what path filters and reports must use.
+// The source name is the fall-back only for entries that have no destination name (plain adds and edits).
+func indexEntryName(c *Ctx, rule string) {
+	p := c.P
+	root := p.Fn("lfs", "revListIndex")
+	if root == nil {
+		c.Missing(rule, "lfs.revListIndex", "not found")
+		return
+	}
+	isField := func(v ssa.Value, field string) bool {
+		tn, f, _, ok := FieldOf(v)
+		return ok && tn == "lfs.DiffIndexEntry" && f == field
+	}
+	n := 0
+	for _, fn := range WithAnon(root) {
+		for _, b := range fn.Blocks {
+			for _, in := range b.Instrs {
+				st, ok := in.(*ssa.Store)
+				if !ok {
+					continue
+				}
+				fa, ok := st.Addr.(*ssa.FieldAddr)
+				if !ok {
+					continue
+				}
+				if tn, f := fieldAddrName(fa); tn != "lfs.indexFile" || f != "Name" {
+					continue
+				}
+				n++
+				good, why := false, "the name is not `destination name, else source name`"
+				if ph, ok := st.Val.(*ssa.Phi); ok && len(ph.Edges) == 2 {
+					var dst, src ssa.Value
+					for _, e := range ph.Edges {
+						if isField(e, "DstName") {
+							dst = e
+						}
+						if isField(e, "SrcName") {
+							src = e
+						}
+					}
+					if dst != nil && src != nil {
+						// the fall-back is taken when the destination name is empty
+						for _, bb := range fn.Blocks {
+							ifi, ok := lastInstr(bb).(*ssa.If)
+							if !ok {
+								continue
+							}
+							op, x, y, ok := BinCmp(ifi.Cond)
+							if !ok {
+								continue
+							}
+							k, isK := ConstInt(y)
+							lc, isCall := x.(*ssa.Call)
+							if !isK || k != 0 || !isCall || (op != token.EQL && op != token.NEQ && op != token.GTR) {
+								continue
+							}
+							if bi, isB := lc.Call.Value.(*ssa.Builtin); !isB || bi.Name() != "len" {
+								continue
+							}
+							if lc.Call.Args[0] == dst {
+								good = true
+							} else if lc.Call.Args[0] == src {
+								why = "the source name is preferred and the destination name is only the fall-back"
+							}
+						}
+					}
+				} else if isField(st.Val, "SrcName") {
+					why = "the source name is used"
+				}
+				c.Check(good, rule, "index-entry-name:destination-first", p.InstrPos(st), "an index entry is named by its destination name, the source name being the fall-back for entries without one",
+					"index entries are not named `destination name, else source name` ("+why+"): a staged rename is scanned, filtered and reported under its old path, so fsck with lfs.fetchexclude misses an object the index now requires")
+			}
+		}
+	}
+	c.AtLeast(rule, "index entries named in revListIndex", n, 1)
+}
+
+// appendsInto collects the append calls whose results flow (through φ-nodes and further appends) into v.
+func appendsInto(v ssa.Value) []*ssa.Call {
+	var out []*ssa.Call
+	seen := map[ssa.Value]bool{}
+	var walk func(v ssa.Value)
+	walk = func(v ssa.Value) {
+		if seen[v] {
+			return
+		}
+		seen[v] = true
+		switch x := v.(type) {
+		case *ssa.Phi:
+			for _, e := range x.Edges {
+				walk(e)
+			}
+		case *ssa.Call:
+			if b, isB := x.Call.Value.(*ssa.Builtin); isB && b.Name() == "append" {
+				out = append(out, x)
+				walk(x.Call.Args[0])
+			}
+		case *ssa.UnOp:
+			for _, d := range ReachingDefs(x) {
+				walk(d)
+			}
+		}
+	}
+	walk(v)
+	return out
+}
+
+// attrFilterKeepsOptOuts (C13): the per-tree filter of `fsck --pointers` is built from every .gitattributes line
+// that sets or unsets the lfs filter, in order: lines with filter=lfs become includes, lines that unset it
+// (-filter, !filter, filter=other) become excludes. Without the excludes a path carved out below a broader
+// filter=lfs pattern is taken for LFS-tracked and its ordinary content is reported as a broken pointer.
+func attrFilterKeepsOptOuts(c *Ctx, rule string) {
+	p := c.P
+	fn := p.Fn("lfs", "catFileBatchTreeForPointers")
+	if fn == nil {
+		c.Missing(rule, "lfs.catFileBatchTreeForPointers", "not found")
+		return
+	}
+	n := 0
+	for _, ci := range CallsIn(fn, "filepathfilter.NewFromPatterns") {
+		n++
+		a := CallArgs(ci.Common())
+		trackedPass := func(want bool) []Edge {
+			return PassEdges(fn, func(cond ssa.Value) (bool, bool) {
+				if IsLoadOfField(cond, "git.AttributePath", "Tracked") {
+					return want, true
+				}
+				return false, false
+			})
+		}
+		for i, kind := range []string{"includes", "excludes"} {
+			apps := appendsInto(a[i])
+			good := false
+			for _, ap := range apps {
+				els := variadicOrdered(ap.Call.Args[1])
+				if len(els) != 1 || els[0] == nil {
+					continue
+				}
+				if pc, _, ok := CallResult(els[0]); !ok || CalleeName(pc.Common()) != "filepathfilter.NewPattern" {
+					continue
+				}
+				pass := trackedPass(i == 0)
+				if ok, _ := Guarded(fn.Blocks[0], ap, pass, nil); ok && nonVacuous(pass) {
+					good = true
+				}
+			}
+			want := "tracked (filter=lfs)"
+			if i == 1 {
+				want = "untracked (filter unset or set to something else)"
+			}
+			c.Check(good, rule, "tree-attr-filter:"+kind, p.InstrPos(ci), "the "+kind+" of the tree filter are the patterns of the "+want+" attribute lines",
+				"the "+kind+" of the per-tree attribute filter are not the patterns of the "+want+" .gitattributes lines: `fsck --pointers` then judges paths by a different tracked set than Git does (e.g. a `-filter` carve-out is reported as a broken pointer)")
+		}
+	}
+	c.AtLeast(rule, "filters built in catFileBatchTreeForPointers", n, 1)
 }
